@@ -116,6 +116,29 @@ func propSpecs() map[string]*PropSpec {
 		Outside: []string{"programs longer/deeper than the bounds", "constructs deliberately not in the reference grammar (no claim either way): chained indexing a[1][2], a comma before summarize's by", "more than one non-canonical gap at a time"},
 		Stubs:   []string{tokStub, "layout family uses the real lexer (nothing stubbed)"},
 	})
+	c05 := func(maxK, nCorrupt int64) []RunSpec {
+		r := tokRuns("H_C05", maxK, 5)
+		for c := int64(0); c <= nCorrupt; c++ {
+			for i := int64(0); i < 20; i++ {
+				r = append(r, rs("H_C05seed", i, c))
+			}
+		}
+		for i := int64(0); i < 6; i++ {
+			r = append(r, rs("H_C05names", i))
+		}
+		return r
+	}
+	add(&PropSpec{
+		ID: "C05", Title: "successful output is exactly one well-formed SQL statement",
+		Quick:    c05(5, 1),
+		Thorough: c05(6, 2),
+		Covers:   []string{"compiled", "compile-error", "with-ctes"},
+		Bounds: map[string]string{"quick": "all compiling token sequences of length <= 5 over a 64-lexeme vocabulary (every operator word, generated subquery names as identifiers); 20 seed programs plain and with one arbitrary corruption; 6 name-collision shapes with arbitrary tokens in the name slots",
+			"thorough": "length <= 6; two corruptions"},
+		Outside: []string{"SQL validity beyond the statement grammar (types, unknown columns)", "pass-through function names that are SQL keywords (passed through by name by contract)", "two subqueries the user gave the same name with as"},
+		Stubs:   []string{tokStub},
+		Assume:  []string{"independent SQL lexers (standard and ClickHouse quoting) and statement parser in harness/h/sqllex.go, sqlparse.go"},
+	})
 	seeds13 := func(n int64) []RunSpec {
 		var r []RunSpec
 		for i := int64(0); i < 20; i++ {
